@@ -27,7 +27,7 @@ BAD_BYTES = b"\xff\xfe\xc3"
 FIELD_LIMIT = 4096
 FAULT_KINDS = ["strict_unconvertible", "no_delimiter", "missing_cell", "blank_row", "undecodable_bytes",
                "oversize_field"]
-SEPS = [None, None, ",", ";", "|"]
+SEPS = [None, None, ",", ";", "|", "\t"]
 NASTY = ["", " ", "x", "a b", " lead", "trail ", "\"", "q\"uo\"te", "'", "l1\nl2", "cr\rx", "crlf\r\ny",
          "é", "\U0001d11e", "tab\there", "com,ma", "semi;colon", "pi|pe", "\"\"", "end\n", "\\", "#c", "0"]
 PD_FUNCS = ["pd_compress", "pd_expand", "pd_standardize_prefix", "pd_standardize_curie", "pd_standardize_uri"]
@@ -50,7 +50,9 @@ class C16Machine(Machine):
            "cell_with_sep", "cell_with_quote", "cell_with_newline", "cell_with_cr", "ambiguous_cell_both",
            "target_column_last", "str_path", "pd_target_column", "later_row_also_fails",
            "result_missing_empty_cell", "target_cell_changed", "pd_missing_is_na", "pd_strict_raised",
-           "zero_rows", "fault_in_other_column", "ambiguous_mode_converted_cell", "file_larger_than_8k", "table_ge_40_rows"]
+           "zero_rows", "fault_in_other_column", "ambiguous_mode_converted_cell", "file_larger_than_8k", "table_ge_40_rows",
+           "eol_crlf", "eol_lf", "eol_mixed", "no_final_line_terminator", "sep_explicit_tab",
+           "pd_index_custom", "pd_index_reversed", "pd_index_offset", "pd_index_duplicated", "pd_index_sliced"]
     )
 
     @classmethod
@@ -72,6 +74,9 @@ class C16Machine(Machine):
             "passthrough": rng.random() < 0.5,
             "ambiguous": rng.random() < 0.4,
             "path_kind": rng.choice(["str", "path"]),
+            # shape of the input file: how its lines end, and whether the last line is terminated
+            "eol": rng.choice(["crlf", "crlf", "lf", "lf", "mixed"]),
+            "final_eol": rng.random() < 0.8,
             "p_nasty": rng.choice([0.2, 0.5, 0.9]),
             "n_pd": rng.choice([0, 1, 2]),
             "fault_kinds": rng.sample(FAULT_KINDS, rng.randint(1, len(FAULT_KINDS))),
@@ -199,7 +204,8 @@ class C16Machine(Machine):
         col = cfg["column"]
         hdr, rows = self._table(rng, func)
         base = {"op": "file", "func": func, "header": cfg["header"], "hdr": hdr, "column": col, "sep": cfg["sep"],
-                "strict": st, "passthrough": pt, "ambiguous": amb, "path_kind": cfg["path_kind"], "fault": None}
+                "strict": st, "passthrough": pt, "ambiguous": amb, "path_kind": cfg["path_kind"], "fault": None,
+                "eol": cfg["eol"], "final_eol": cfg["final_eol"]}
         plan = []
         # fault-free configuration: no cell raises under the chosen flags
         ff_rows = copy.deepcopy(rows)
@@ -262,7 +268,8 @@ class C16Machine(Machine):
                 target = names[(col + 1) % cfg["width"]]
             plan.append({"op": "pd", "func": pf, "names": names, "rows": prow, "column": names[col],
                          "target_column": target, "strict": rng.random() < 0.3, "passthrough": rng.random() < 0.5,
-                         "ambiguous": rng.random() < 0.4, "index": "custom" if rng.random() < 0.3 else "range"})
+                         "ambiguous": rng.random() < 0.4,
+                         "index": rng.choice(["range", "range", "range", "custom", "reversed", "offset", "duplicated", "sliced"])})
         return plan
 
     @staticmethod
@@ -300,6 +307,10 @@ class C16Machine(Machine):
                     yield dict(copy.deepcopy(op), sep=None)
                 if op.get("path_kind") != "path":
                     yield dict(copy.deepcopy(op), path_kind="path")
+                if op.get("eol", "crlf") != "crlf":
+                    yield dict(copy.deepcopy(op), eol="crlf")
+                if not op.get("final_eol", True):
+                    yield dict(copy.deepcopy(op), final_eol=True)
                 for flag in ("passthrough", "ambiguous", "strict"):
                     if op.get(flag):
                         yield dict(copy.deepcopy(op), **{flag: False})
@@ -334,12 +345,24 @@ class C16Machine(Machine):
 
     def _materialise(self, op):
         delim = op["sep"] or "\t"
-        buf = io.StringIO(newline="")
-        w = csv.writer(buf, delimiter=delim)
-        if op["header"]:
-            w.writerow(op["hdr"])
-        w.writerows(op["rows"])
-        data = buf.getvalue().encode("utf-8")
+        lines = ([op["hdr"]] if op["header"] else []) + list(op["rows"])
+        eol = op.get("eol", "crlf")
+        parts = []
+        for n, row in enumerate(lines):
+            buf = io.StringIO(newline="")
+            term = "\r\n" if eol == "crlf" or (eol == "mixed" and n % 2 == 0) else "\n"
+            # always let csv quote with its default terminator (with lineterminator="\n" Python 3.12
+            # leaves a bare \r inside a cell unquoted, and the file would denote another table);
+            # then swap the terminator of the finished line
+            csv.writer(buf, delimiter=delim).writerow(row)
+            line = buf.getvalue()
+            assert line.endswith("\r\n")
+            parts.append(line[:-2] + term)
+        text = "".join(parts)
+        if not op.get("final_eol", True) and lines and lines[-1]:
+            # the last line has no terminator (a blank last row cannot be written that way)
+            text = text[:-2] if text.endswith("\r\n") else text[:-1]
+        data = text.encode("utf-8")
         if BAD.encode() in data:
             data = data.replace(BAD.encode(), BAD_BYTES)
         self.file_no += 1
@@ -360,6 +383,13 @@ class C16Machine(Machine):
         path, before = self._materialise(op)
         scalar = scalar_for(conv, func, amb)
         limit = csv.field_size_limit()
+        # harness self-check: the bytes written must denote exactly the intended table
+        intended = ([list(hdr)] if op["header"] else []) + [list(r) for r in rows]
+        if BAD_BYTES not in before and not any(len(cell) > limit for row in intended for cell in row):
+            denoted = list(csv.reader(io.StringIO(before.decode("utf-8"), newline=""), delimiter=op["sep"] or "\t"))
+            if denoted != intended:
+                from ..env import HarnessError
+                raise HarnessError(f"materialised file does not denote the intended table: {denoted!r} != {intended!r}")
 
         # what the scalar method says, row by row
         expected_rows = []
@@ -403,8 +433,13 @@ class C16Machine(Machine):
         self.probe("header" if op["header"] else "no_header")
         if op["sep"] is not None:
             self.probe("custom_sep")
+        self.probe("eol_" + op.get("eol", "crlf"))
+        if not op.get("final_eol", True):
+            self.probe("no_final_line_terminator")
         if op["path_kind"] == "str":
             self.probe("str_path")
+        if op["sep"] == "\t":
+            self.probe("sep_explicit_tab")
         if not rows:
             self.probe("zero_rows")
         if len(before) > 8192:
@@ -517,8 +552,18 @@ class C16Machine(Machine):
         if col not in names:
             return {"skipped": "column"}
         ci = names.index(col)
-        index = [f"r{i}" for i in range(len(rows))] if op.get("index") == "custom" else None
-        df = pd.DataFrame([list(r) for r in rows], columns=names, index=index)
+        ik = op.get("index", "range")
+        n = len(rows)
+        index = {"custom": [f"r{i}" for i in range(n)], "reversed": list(range(n - 1, -1, -1)),
+                 "offset": list(range(5, 5 + n)), "duplicated": [i // 2 for i in range(n)]}.get(ik)
+        if ik == "sliced":
+            # a frame that is a slice of a longer one: its index starts at 2
+            pad = [[""] * len(names)] * 2
+            df = pd.DataFrame(pad + [list(r) for r in rows], columns=names).iloc[2:]
+        else:
+            df = pd.DataFrame([list(r) for r in rows], columns=names, index=index)
+        if ik != "range":
+            self.probe("pd_index_" + ik)
         orig = df.copy(deep=True)
         scalar = scalar_for(conv, func, amb if func in ("pd_compress", "pd_expand") else False)
         expected = []
